@@ -94,8 +94,9 @@ Lemma walk_statement_arms_agree :
 Proof. split; vm_compute; reflexivity. Qed.
 
 (* the nesting bound of array values, and that popValue still has one recursive call guarded by it *)
-Lemma max_value_depth_agrees : max_value_depth = TokensGen.max_value_depth.
-Proof. reflexivity. Qed.
+(* the model's bound is the constant read from parser.go; it must leave room for real files *)
+Lemma max_value_depth_agrees : max_value_depth = TokensGen.max_value_depth /\ N.leb 16 max_value_depth = true.
+Proof. split; reflexivity. Qed.
 Lemma pop_value_guarded : TokensGen.pop_value_recursive_calls = 1 /\ TokensGen.pop_value_depth_guards = 1.
 Proof. split; reflexivity. Qed.
 
@@ -108,6 +109,10 @@ Lemma message_texts_present :
      slit "errors.go:msg" 0; slit "errors.go:msg" 1; slit "errors.go:msg" 2;
      slit "token.go:String" 0; slit "token.go:String" 1; slit "token.go:String" 3;
      slit "parser.go:popValue" 0; msg_close; msg_unclosed] = true.
+Proof. vm_compute. reflexivity. Qed.
+(* the cut of a literal in Token.String: threshold and kept length are there, kept <= threshold *)
+Lemma token_string_cut_present :
+  match TokensGen.token_string_ints with [a; b] => N.leb b a && N.ltb 0 b | _ => false end = true.
 Proof. vm_compute. reflexivity. Qed.
 Lemma expected_sites_present :
   forallb (fun l => match l with [] => false | _ => true end)
